@@ -361,7 +361,8 @@ func lemmaSalsaRoundTrip(c *Salsa, k []byte, s []byte) bool {
 // @ opaque specShuffleKS
 func specShuffleKS(c *Shuffle, s0, s1 byte, i int) byte { return 0 }
 
-// @ assume (*Shuffle).crypt iface post=post_Shuffle_crypt modifies=data
+// @ assume (*Shuffle).crypt iface post=post_Shuffle_crypt modifies=data for=EncryptKey
+// @ assume (*Shuffle).crypt iface post=post_Shuffle_crypt modifies=data for=DecryptKey
 func post_Shuffle_crypt(c *Shuffle, data, old_data []byte, res0 error) bool {
 	return res0 == nil && len(data) != 24 || (res0 == nil && data[0] == old_data[0] && data[1] == old_data[1] &&
 		vs.Forall(2, 24, func(i int) bool { return data[i] == old_data[i]^specShuffleKS(c, old_data[0], old_data[1], i) }))
@@ -411,4 +412,28 @@ func lemmaShuffleRoundTrip(c *Shuffle, k []byte, s []byte) bool {
 func lemmaShuffleRoundTripBytes(c *Shuffle, k []byte, s []byte) bool {
 	// ... and under that stream every other byte comes back
 	return vs.Forall(2, 24, func(i int) bool { return specDecByte(s, i)^specShuffleKS(c, k[0], k[1], i) == k[i] })
+}
+
+// crypt itself, against x/crypto's two primitives (recorded calls): on EVERY call the sub-key is derived afresh by
+// HSalsa20 from the cipher's key and the nonce salted with THIS key's two salt bytes, and the 22 bytes after the
+// salt are XOR-ed in place with the stream of exactly that nonce and that sub-key; the salt bytes are not touched.
+// (This is what makes the assumed "stream depends on the cipher object and the salt only" true: no state is kept
+// between calls.)
+// @ assume golang.org/x/crypto/salsa20/salsa.HSalsa20 iface
+// @ assume golang.org/x/crypto/salsa20/salsa.XORKeyStream iface
+// @ verify (*Shuffle).crypt pre=pre_Shuffle_crypt post=post_Shuffle_crypt_calls props=C20,C12
+// @ loop (*Shuffle).crypt 0 unroll 8
+func pre_Shuffle_crypt(c *Shuffle, data []byte) bool { return c != nil && len(data) == 24 }
+func post_Shuffle_crypt_calls(c *Shuffle, data []byte, old_data []byte, res0 error) bool {
+	h, x := vs.TraceFind("HSalsa20"), vs.TraceFind("XORKeyStream")
+	if h != 0 || x != 1 || vs.TraceLen() != 2 || res0 != nil {
+		return false
+	}
+	nonce := vs.TraceArg[*[16]byte](h, 1)
+	return vs.TraceArg[*[32]byte](h, 2) == &c.key && vs.TraceArg[*[16]byte](x, 2) == nonce &&
+		vs.TraceArg[*[32]byte](x, 3) == vs.TraceArg[*[32]byte](h, 0) &&
+		len(vs.TraceArg[[]byte](x, 0)) == 22 && len(vs.TraceArg[[]byte](x, 1)) == 22 &&
+		vs.Forall(0, 8, func(i int) bool {
+			return nonce[2*i] == old_data[0]^c.nonce[2*i] && nonce[2*i+1] == old_data[1]^c.nonce[2*i+1]
+		}) && data[0] == old_data[0] && data[1] == old_data[1]
 }
